@@ -82,6 +82,7 @@ type FaultSpec struct {
 	Nth        int    `json:"nth"`
 	Errno      string `json:"errno"`
 	Persistent bool   `json:"persistent,omitempty"`
+	Mode       string `json:"mode,omitempty"` // "" = the hook returns the error; "env" = a real file-system condition makes the real call fail
 }
 
 type TornSpec struct {
